@@ -39,6 +39,8 @@ func MapOf() FieldOpt             { return func(f *ir.Field) { f.Card = ir.Map }
 func NonNull() FieldOpt           { return func(f *ir.Field) { f.Nullable = ir.B(false) } }
 func Null() FieldOpt              { return func(f *ir.Field) { f.Nullable = ir.B(true) } }
 func Embed() FieldOpt             { return func(f *ir.Field) { f.Embed = true; f.JSONTag = ir.S("") } }
+// EmbedTag is an embedded message field that carries a non-empty json tag (still flattened).
+func EmbedTag(tag string) FieldOpt { return func(f *ir.Field) { f.Embed = true; f.JSONTag = ir.S(tag) } }
 func Cast(t string) FieldOpt      { return func(f *ir.Field) { f.CastType = t } }
 func Custom(t string) FieldOpt    { return func(f *ir.Field) { f.CustomType = t } }
 func JSON(t string) FieldOpt      { return func(f *ir.Field) { f.JSONTag = ir.S(t) } }
